@@ -493,6 +493,10 @@ func runC11(r *Run) {
 			}
 		}
 		gotProto := hdr.Get("Sec-WebSocket-Protocol")
+		if vals, present := hdr["Sec-Websocket-Protocol"]; present && gotProto == "" {
+			// "or none" means no header: an empty one names a protocol nobody offered
+			r.Violate("subprotocol", sig+",empty-header", "the 101 response carries a Sec-WebSocket-Protocol header with an empty value %q although no protocol was selected (offered %q, server supports %q)", vals, sv.offered, sv.supported)
+		}
 		okp := false
 		for _, w := range sv.want {
 			// (the library compares names case-insensitively and answers with the
